@@ -1,8 +1,11 @@
 //! Conformance harness (see /verif/CONVENTIONS.md).
 //!   <bin> replay <model> <cases.ndjson> --summary <out.json>
-//!   <bin> record <model> --seed S --out <trace.ndjson> --summary <out.json>
 
 use h_common::{tool_error, Args};
+
+mod eds;
+mod mh;
+mod sq;
 
 fn main() {
     let args = Args::from_env();
@@ -10,6 +13,8 @@ fn main() {
     let model = args.pos(1).to_string();
     h_common::quiet_panics();
     match (mode.as_str(), model.as_str()) {
+        ("replay", "shrexeds") => eds::replay(&args),
+        ("replay", "multihasher") => mh::replay(&args),
         _ => tool_error(&format!("unknown mode/model {mode}/{model}")),
     }
 }
